@@ -21,6 +21,7 @@ import (
 	"os"
 	"path/filepath"
 	"sort"
+	"strconv"
 	"strings"
 )
 
@@ -68,6 +69,55 @@ func pkgDecisions(dir string) []string {
 			if fd.Recv != nil && len(fd.Recv.List) > 0 {
 				fn = nodeStr(fset, fd.Recv.List[0].Type) + "." + fn
 			}
+			// names declared inside the function (parameters, results, := and var declarations, range variables):
+			// renaming them does not change the case analysis
+			locals := map[string]bool{}
+			if fd.Type.Params != nil {
+				for _, fl := range fd.Type.Params.List {
+					for _, nm := range fl.Names {
+						locals[nm.Name] = true
+					}
+				}
+			}
+			if fd.Type.Results != nil {
+				for _, fl := range fd.Type.Results.List {
+					for _, nm := range fl.Names {
+						locals[nm.Name] = true
+					}
+				}
+			}
+			if fd.Recv != nil {
+				for _, fl := range fd.Recv.List {
+					for _, nm := range fl.Names {
+						locals[nm.Name] = true
+					}
+				}
+			}
+			ast.Inspect(fd.Body, func(x ast.Node) bool {
+				switch s := x.(type) {
+				case *ast.AssignStmt:
+					if s.Tok == token.DEFINE {
+						for _, l := range s.Lhs {
+							if id, ok := l.(*ast.Ident); ok {
+								locals[id.Name] = true
+							}
+						}
+					}
+				case *ast.ValueSpec:
+					for _, nm := range s.Names {
+						locals[nm.Name] = true
+					}
+				case *ast.RangeStmt:
+					if id, ok := s.Key.(*ast.Ident); ok {
+						locals[id.Name] = true
+					}
+					if id, ok := s.Value.(*ast.Ident); ok {
+						locals[id.Name] = true
+					}
+				}
+				return true
+			})
+			nstr := func(n ast.Node) string { return normIdents(fset, n, locals) }
 			seq := 0
 			depth := 0
 			// decisions keep their order and nesting (a `select` moved into an error branch is a different case
@@ -101,10 +151,10 @@ func pkgDecisions(dir string) []string {
 					}
 					switch s := x.(type) {
 					case *ast.IfStmt:
-						add("if %s", nodeStr(fset, s.Cond))
+						add("if %s", nstr(s.Cond))
 					case *ast.SwitchStmt:
 						if s.Tag != nil {
-							add("switch %s", nodeStr(fset, s.Tag))
+							add("switch %s", nstr(s.Tag))
 						} else {
 							add("switch")
 						}
@@ -115,31 +165,31 @@ func pkgDecisions(dir string) []string {
 							add("default")
 						}
 						for _, c := range s.List {
-							add("case %s", nodeStr(fset, c))
+							add("case %s", nstr(c))
 						}
 					case *ast.ForStmt:
 						c := ""
 						if s.Cond != nil {
-							c = nodeStr(fset, s.Cond)
+							c = nstr(s.Cond)
 						}
 						p := ""
 						if s.Post != nil {
-							p = nodeStr(fset, s.Post)
+							p = nstr(s.Post)
 						}
 						i := ""
 						if s.Init != nil {
-							i = nodeStr(fset, s.Init)
+							i = nstr(s.Init)
 						}
 						add("for %s; %s; %s", i, c, p)
 					case *ast.RangeStmt:
-						add("range %s", nodeStr(fset, s.X))
+						add("range %s", nstr(s.X))
 					case *ast.SelectStmt:
 						add("select")
 					case *ast.CommClause:
 						if s.Comm == nil {
 							add("comm default")
 						} else {
-							add("comm %s", nodeStr(fset, s.Comm))
+							add("comm %s", nstr(s.Comm))
 						}
 					case *ast.GoStmt:
 						add("go %s", nodeStr(fset, s.Call.Fun))
@@ -168,7 +218,13 @@ func pkgDecisions(dir string) []string {
 						if inMsg && s.Kind == token.STRING {
 							return true
 						}
-						if s.Kind == token.INT || s.Kind == token.CHAR || s.Kind == token.STRING || s.Kind == token.FLOAT {
+						if s.Kind == token.INT {
+							if v, err := strconv.ParseInt(strings.ReplaceAll(s.Value, "_", ""), 0, 64); err == nil {
+								add("lit %d", v)
+							} else {
+								add("lit %s", s.Value)
+							}
+						} else if s.Kind == token.CHAR || s.Kind == token.STRING || s.Kind == token.FLOAT {
 							add("lit %s", s.Value)
 						}
 					}
